@@ -198,14 +198,14 @@ Definition i_set_block_size (i : inode) (idx v : N) : inode :=
 (* inode after sqfs_block_processor_begin_file *)
 Definition new_inode : inode := mkI false 0 0 0 U32MAX U32MAX [].
 
-(* the inode table: the caller's sqfs_inode_generic_t* variables, by file number *)
-Definition itab := list (N * inode).
+(* the inode table: the caller's sqfs_inode_generic_t* variables, by file number.  begin_file(k) creates
+   inode k (calloc; type FILE; fragment location 0xFFFFFFFF); no block of file k exists before that
+   call, so the table is modelled as a total function that starts with a fresh inode everywhere and
+   EvBegin leaves it alone. *)
+Definition itab := N -> inode.
 
-Fixpoint it_upd (t : itab) (k : N) (f : inode -> inode) : itab :=
-  match t with
-  | [] => []
-  | (k', i) :: r => if k' =? k then (k', f i) :: r else (k', i) :: it_upd r k f
-  end.
+Definition it_upd (t : itab) (k : N) (f : inode -> inode) : itab :=
+  fun k' => if k' =? k then f (t k') else t k'.
 
 (* ------------------------------------------------------------------ *)
 (* front end: frontend.c, as a generator of the calls into the back end *)
@@ -408,7 +408,7 @@ Definition st_ino s v := mkSt (s_pool s) (s_ioq s) (s_ioseq s) (s_iodeq s) (s_fr
 Definition st_bw s v w := mkSt (s_pool s) (s_ioq s) (s_ioseq s) (s_iodeq s) (s_frag s) (s_cur s) (s_backlog s) (s_ht s) (s_ftbl s) (s_ino s) v w.
 
 Definition init_st (p0 : P) (ht0 : HT) (bw0 : BW) : st :=
-  mkSt p0 [] 0 0 None false 0 ht0 [] [] bw0 [].
+  mkSt p0 [] 0 0 None false 0 ht0 [] (fun _ => new_inode) bw0 [].
 
 (* release_old_block *)
 Definition release (s : st) : st := st_backlog s (s_backlog s - 1).
@@ -570,7 +570,7 @@ Definition finish (s : st) : res st :=
 (* execution of one front-end call by the rest of the processor *)
 Definition be_event (s : st) (e : ev) : res st :=
   match e with
-  | EvBegin ino => Ok (st_ino s (s_ino s ++ [(ino, new_inode)]))
+  | EvBegin ino => Ok s      (* inode [ino] is fresh: see itab *)
   | EvSize ino n => Ok (st_ino s (it_upd (s_ino s) ino (fun i => i_set_file_size i (i_size i + n))))
   | EvNew => bind (get_new_block s) (fun s => Ok (st_cur s true))
   | EvSubmitCur b => Ok (st_cur (enqueue s b) false)
